@@ -39,6 +39,10 @@ type c13Case struct {
 	Id    string      `json:"id"`
 	Doc   interface{} `json:"doc"`
 	Deep  int         `json:"deep"` // wrap Doc in this many levels of nesting
+	// Cron: 0 = schedules go to a cron that accepts anything (or, as a
+	// library, nowhere); 1 = the real in-process cron (never started:
+	// only its parsing and book-keeping is reached) behind the state hooks.
+	Cron int `json:"cron,omitempty"`
 	// More hostile steps applied after the first one (so that, e.g., a
 	// stored hostile fact meets a hostile pattern).
 	More []c13Step `json:"more,omitempty"`
@@ -52,7 +56,8 @@ type c13Step struct {
 
 var c13Reserved = []string{"rule", "when", "pattern", "schedule", "expires", "ttl", "deleteWith", "id", "_id", "!p", "!q", "!disabled", "!enabled", "!parents", "!writeKey",
 	"actions", "action", "condition", "policies", "code", "endpoint", "opts", "libraries", "location", "locations", "and", "or", "not", "shortCircuit", "trigger!", "evaluate!", "once", "props", "x!"}
-var c13Strings = []string{"x", "", "?", "?x", "??x", "?<n", "null", "S_x", "F_1", "B_true", "!", "!a.b", "+1s", "* * * * * * *", "javascript", "2100-01-01T00:00:00Z", "10h", "((("}
+var c13Strings = []string{"x", "", "?", "?x", "??x", "?<n", "null", "S_x", "F_1", "B_true", "!", "!a.b", "+1s", "* * * * * * *", "javascript", "2100-01-01T00:00:00Z", "10h", "(((",
+	"5-1 * * * *", "* 5-1 * * *", "59-0 * * * * * *", "* * * * * * 1999", "*/0 * * * *", "@yearly", "59-@yearly", "!2100-01-01T00:00:00Z", "!1999-01-01T00:00:00Z", "!x", "+1x", "+-1s", "1-2-3 * * * *", "* * 31 2 *", "60 * * * *", "* * * * 7-0", "L * * * *", "* * L * *", "* * 1W * *", "* * * * 5#9", "0 0 29 2 * * 2099"}
 
 func c13Value(t *rapid.T, depth int, label string, qvars bool) interface{} {
 	kinds := []string{"str", "str", "num", "bool", "null", "map", "map", "arr"}
@@ -108,6 +113,7 @@ func genC13(t *rapid.T) c13Case {
 	c.Level = rapid.SampledFrom([]string{"lib", "lib", "sys"}).Draw(t, "level")
 	c.Role = rapid.SampledFrom([]string{"fact", "fact", "rule", "rule", "pattern", "rulesearch", "query", "event", "id"}).Draw(t, "role")
 	c.Id = rapid.SampledFrom([]string{"", "h1", "canary0", "!x", "!canary0.disabled", "?x", strings.Repeat("i", 1100)}).Draw(t, "id")
+	c.Cron = rapid.IntRange(0, 1).Draw(t, "cron")
 	// '?'-strings as *data* send the matcher dependency into unbounded
 	// recursion (known finding); they are generated only in pattern-like
 	// roles unless the finding is switched off
@@ -119,6 +125,9 @@ func genC13(t *rapid.T) c13Case {
 			r := M{"when": M{"pattern": M{"a": "?x"}}, "condition": M{"pattern": M{"b": "?x"}}, "action": M{"code": "'ok'"}}
 			k := rapid.SampledFrom([]string{"when", "condition", "action", "actions", "schedule", "expires", "ttl", "deleteWith", "policies", "once", "props"}).Draw(t, "corrupt")
 			r[k] = c13Value(t, 2, "corrupt."+k, qvars)
+			if k == "schedule" && rapid.Bool().Draw(t, "schedule-string") {
+				r[k] = rapid.SampledFrom(c13Strings).Draw(t, "schedule")
+			}
 			c.Doc = r
 		case "fact":
 			f := M{"a": "x"}
@@ -135,6 +144,27 @@ func genC13(t *rapid.T) c13Case {
 		}
 	} else {
 		c.Doc = c13Map(t, 3, "doc", qvars)
+	}
+	if (c.Role == "rule" || c.Role == "fact") && rapid.IntRange(0, 3).Draw(t, "scheduled?") == 0 {
+		// a schedule (cron expression, one-shot, or neither) in a rule,
+		// or in a fact that looks like a rule to the cron hook
+		var sch string
+		if rapid.Bool().Draw(t, "schedule-made") {
+			n := rapid.SampledFrom([]int{5, 5, 6, 7, 4, 8}).Draw(t, "schedule-fields")
+			fs := []string{}
+			for i := 0; i < n; i++ {
+				fs = append(fs, rapid.SampledFrom([]string{"*", "*", "*", "5", "0", "1-5", "5-1", "*/5", "*/0", "5/0", "1,2", "2,1", "L", "?", "60", "-1", "x", "", "1-", "-", "*/", "1-5/2", "5-1/2", "JAN", "MON-SUN", "SUN-MON", "1#1", "LW", "15W", "99", "1970", "2099", "2099-1970"}).Draw(t, fmt.Sprintf("schedule-field%d", i)))
+			}
+			sch = strings.Join(fs, " ")
+		} else {
+			sch = rapid.SampledFrom(c13Strings).Draw(t, "schedule")
+		}
+		r := M{"schedule": sch, "action": M{"code": "'tick'"}}
+		if c.Role == "fact" {
+			c.Doc = M{"rule": r, "a": "x"}
+		} else {
+			c.Doc = r
+		}
 	}
 	if rapid.IntRange(0, 9).Draw(t, "deep?") == 0 {
 		c.Deep = rapid.SampledFrom([]int{9, 50, 200}).Draw(t, "deep")
@@ -406,7 +436,13 @@ func c13NewTarget(c c13Case, o *vlib.Outcome) c13Target {
 		cont.Timing = false
 		cont.LocationTTL = sys.Forever
 		cont.DefaultLocControl = quietControl()
-		s, err := sys.NewSystem(newCtx(), *conf, *cont, nullCron{})
+		var cronner cron.Cronner = nullCron{}
+		if c.Cron == 1 {
+			cr, _ := cron.NewCron(nil, time.Second, "c13cron", 1000)
+			cronner = &cron.InternalCron{Cron: cr}
+			o.Label("real-cron")
+		}
+		s, err := sys.NewSystem(newCtx(), *conf, *cont, cronner)
 		if err != nil {
 			o.Fail("NEWSYSTEM", "%v", err)
 			return nil
@@ -414,6 +450,11 @@ func c13NewTarget(c c13Case, o *vlib.Outcome) c13Target {
 		return c13Sys{s, "L"}
 	}
 	w := newWorld(c.Kind, nil, o)
+	if c.Cron == 1 {
+		cr, _ := cron.NewCron(nil, time.Second, "c13cron", 1000)
+		w.hooks = func(st core.State) { cron.AddHooks(newCtx(), &cron.InternalCron{Cron: cr}, st) }
+		o.Label("real-cron")
+	}
 	loc, err := w.open("L")
 	if err != nil {
 		o.Fail("OPEN", "%v", err)
@@ -439,6 +480,8 @@ func c13Canary(o *vlib.Outcome, tg c13Target, phase string) []string {
 		{"AddFact canary1", func() (string, error) { return "", tg.addFact("canary1", M{"canary": "c1"}) }},
 		{"GetFact canary1", func() (string, error) { return tg.getFact("canary1") }},
 		{"GetFact canary0", func() (string, error) { return tg.getFact("canary0") }},
+		{"GetFact canaryDep", func() (string, error) { return tg.getFact("canaryDep") }},
+		{"SearchFacts deleteWith", func() (string, error) { return tg.search(M{"deleteWith": A{"?d"}}) }},
 		{"SearchFacts canary", func() (string, error) { return tg.search(M{"canary": "?c"}) }},
 		{"ListRules", func() (string, error) { return tg.listRules() }},
 		{"SearchRules canaryEvent", func() (string, error) { return tg.searchRules(M{"canaryEvent": "go"}) }},
@@ -460,6 +503,11 @@ func c13Canary(o *vlib.Outcome, tg c13Target, phase string) []string {
 
 func c13Setup(tg c13Target) error {
 	if err := tg.addFact("canary0", M{"canary": "c0"}); err != nil {
+		return err
+	}
+	// something that depends on the canary (and, like the properties of a
+	// location, on nothing else)
+	if err := tg.addFact("canaryDep", M{"canary": "dep", "deleteWith": A{"canary0"}}); err != nil {
 		return err
 	}
 	return tg.addRule("canaryRule", M{"when": M{"pattern": M{"canaryEvent": "?v"}}, "condition": M{"pattern": M{"canary": "c0"}}, "action": M{"code": "'canary-fired'"}})
